@@ -175,6 +175,9 @@ class Renderer:
         if k == 'call':
             a = [R(x) for x in e[2]] + ['%s=%s' % (kk, R(x)) for kk, x in e[3]]
             return '%s(%s)' % (e[1], ', '.join(a))
+        if k == 'supercall':
+            a = [R(x) for x in e[2]] + ['%s=%s' % (kk, R(x)) for kk, x in e[3]]
+            return 'super.%s(%s)' % (e[1], ', '.join(a))
         if k == 'optable':
             rows = []
             for kind, ops in e[2]:
